@@ -95,6 +95,12 @@ def make_harness(cfg, tw):
         if kind == "decomp":
             out["val"] = call(dist, name, x, y)
             out["parts"] = [call(dist, name, [x[i]], [y[i]]) for i in range(n)]
+            # the same decomposition for the closed form of the specification (completes the argument
+            # "kernel equals its closed form  =>  the n-vector value equals the n-vector closed form")
+            sh = (lambda t: t.e + rv(SPEC.EPSILON)) if name in SPEC.DECORATED else (lambda t: t.e)
+            xs, ys = [sh(t) for t in x], [sh(t) for t in y]
+            out["cf"] = SPEC.CLOSED[name](xs, ys, A)
+            out["cf_parts"] = [SPEC.CLOSED[name]([xs[i]], [ys[i]], A) for i in range(n)]
             return out
         if kind == "equiv":
             out["val"] = call(dist, name, x, y, via=cfg.get("via", "registry"), tw=tw)
@@ -152,6 +158,10 @@ def obligations(eng, cfg, out, info):
         if cfg["metric"] == "gower":
             tot = tot / n
         eng.check("value-is-sum-of-coordinate-kernels", to_real(out["val"]) == tot, info)
+        ctot = z3.Sum(out["cf_parts"])
+        if cfg["metric"] == "gower":
+            ctot = ctot / n
+        eng.check("closed-form-is-sum-of-its-kernels", out["cf"] == ctot, info)
         # lifting lemmas over an uninterpreted kernel g (pure linear arithmetic): what holds for every
         # coordinate kernel holds for their sum
         g = z3.Function("g", z3.RealSort(), z3.RealSort(), z3.RealSort())
